@@ -166,6 +166,31 @@ const reflectJS = `
     var l=Object.getOwnPropertyDescriptor(s,"length"); beh("strobj_len", l? (l.value+"|"+attrs(l)) : "absent");
     s[0]="x"; beh("strobj_write", String(s[0])); beh("strobj_names", Object.getOwnPropertyNames(new String("ab")).sort().join(","));
     beh("strobj_idxlen", idxlen(new String("ab"))); })();
+  // every constructor through every [[Call]] / [[Construct]] route
+  (function(){
+    var ctors=[["Object",Object,[]],["Function",Function,["return 1"]],["Array",Array,[1,2]],["String",String,["s"]],["Boolean",Boolean,[true]],
+      ["Number",Number,[1]],["Date",Date,[0]],["RegExp",RegExp,["x"]],["Error",Error,["m"]],["EvalError",EvalError,["m"]],["TypeError",TypeError,["m"]],
+      ["RangeError",RangeError,["m"]],["ReferenceError",ReferenceError,["m"]],["SyntaxError",SyntaxError,["m"]],["URIError",URIError,["m"]]];
+    function on(o){ var n=ownerName(o); return n===null? "?" : n; }
+    function shape(r, isErr){
+      if(r===null) return "null";
+      if(!isObj(r)) return "prim:"+typeof r;
+      return on(Object.getPrototypeOf(r))+":"+cls(r)+":"+on(r.constructor)+":"+(isErr? String(r.name)+":"+String(r.message) : "-");
+    }
+    for(var i=0;i<ctors.length;i++){ (function(n, C, a){
+      var isErr = n.length>=5 && n.substring(n.length-5)==="Error";
+      function rt(route, f){ var t; try { t=shape(f(), isErr); } catch(e) { t="throws:"+e.name; } lines.push("route\t"+n+"_"+route+"\t\t"+t); }
+      rt("call", function(){ return C.apply(undefined, a); });
+      rt("plaincall", function(){ return a.length===0? C() : a.length===1? C(a[0]) : C(a[0], a[1]); });
+      rt("method", function(){ var o={f:C}; return a.length===0? o.f() : a.length===1? o.f(a[0]) : o.f(a[0], a[1]); });
+      rt("dotcall", function(){ return a.length===0? C.call(null) : a.length===1? C.call(null, a[0]) : C.call(null, a[0], a[1]); });
+      rt("bound", function(){ var B=C.bind(null); return a.length===0? B() : a.length===1? B(a[0]) : B(a[0], a[1]); });
+      rt("boundargs", function(){ return a.length===0? C.bind(null)() : a.length===1? C.bind(null, a[0])() : C.bind(null, a[0])(a[1]); });
+      rt("new", function(){ return a.length===0? new C() : a.length===1? new C(a[0]) : new C(a[0], a[1]); });
+      rt("boundnew", function(){ var B=C.bind(null); return a.length===0? new B() : a.length===1? new B(a[0]) : new B(a[0], a[1]); });
+      rt("boundargsnew", function(){ var B= a.length===0? C.bind(null) : C.bind(null, a[0]); return a.length===2? new B(a[1]) : new B(); });
+    })(ctors[i][0], ctors[i][1], ctors[i][2]); }
+  })();
   beh("gmt_is_utc", String(Date.prototype.toGMTString===Date.prototype.toUTCString));
   return {lines: lines.join("\n"), nums: nums};
 })()
@@ -178,6 +203,7 @@ type Dump struct {
 	Order  map[string][]string          // owner -> own property names in getOwnPropertyNames order
 	ForIn  map[string]string            // subject -> keys
 	Beh    map[string]string            // behaviour name -> outcome
+	Route  map[string]string            // <Ctor>_<route> -> what the constructor created
 	Link   map[string]string            // subject -> "<proto owner>:<[[Class]]>"
 	Static map[string]string            // hook facts: "bind <owner> <prop>" / "self <owner>" / "order" / "count" / "eval" -> token
 }
@@ -199,7 +225,7 @@ func reflectRuntime(vm *otto.Otto) (*Dump, error) {
 	lv, _ := res.Get("lines")
 	nv, _ := res.Get("nums")
 	nums := nv.Object()
-	d := &Dump{Own: map[string]map[string]string{}, Ent: map[string]map[string]string{}, Order: map[string][]string{}, ForIn: map[string]string{}, Link: map[string]string{}, Beh: map[string]string{}, Static: map[string]string{}}
+	d := &Dump{Own: map[string]map[string]string{}, Ent: map[string]map[string]string{}, Order: map[string][]string{}, ForIn: map[string]string{}, Link: map[string]string{}, Beh: map[string]string{}, Route: map[string]string{}, Static: map[string]string{}}
 	fix := func(tok string) string {
 		// replace num:#k by num:<bits>
 		i := strings.Index(tok, "num:#")
@@ -241,6 +267,8 @@ func reflectRuntime(vm *otto.Otto) (*Dump, error) {
 			d.Link[f[1]] = f[3]
 		case "beh":
 			d.Beh[f[1]] = f[3]
+		case "route":
+			d.Route[f[1]] = f[3]
 		}
 	}
 	// facts read from the Go structures (hook VerifC14Static, build tag verif)
